@@ -53,9 +53,14 @@ package hydra
 // the instance just built is registered, once, under this name; the summoner itself never removes an
 // instance from the registry (its only Delete is the clean-up of its own slot); whatever is returned
 // without error is the registered instance or the one just built.
+// The deferred clean-up of a summoner that owned the slot: it clears the flag under the slot's mutex.
+//@ func (*hydra).SummonSwamp$1()
+//@   property C18
+//@   modifies *
 //@ func (*hydra).SummonSwamp(h, ctx, islandID, swampName) (swampObj, err)
 //@   property C18
 //@   modifies *
+//@   csensures[the_slot_flag_is_never_cleared_outside_the_owners_final_cleanup] waiter.ready || !old(waiter.ready)
 //@   before hydra.createNewSwamp [builds_only_after_the_registry_was_seen_empty_for_this_name] isnil(lastret("hydra.getSwamp")) && calls("hydra.getSwamp") > old(calls("hydra.getSwamp")) && calls("Map.LoadOrStore") == old(calls("Map.LoadOrStore")) + 1 && calls("Map.Store") == old(calls("Map.Store"))
 //@   before Map.Store [registers_exactly_the_instance_just_built] calls("hydra.createNewSwamp") == old(calls("hydra.createNewSwamp")) + 1 && calls("Map.Store") == old(calls("Map.Store")) && ipay(arg2) == ipay(lastret("hydra.createNewSwamp"))
 //@   ensures[one_slot_per_call] calls("Map.LoadOrStore") <= old(calls("Map.LoadOrStore")) + 1
